@@ -106,6 +106,31 @@ theorem R_oscOpen (cfg : Cfg) (st : Style) (id link rest acc : List Char) (hid :
 
 theorem flushRuns_nil (st : Style) : flushRuns st [] = [] := by simp [flushRuns]
 
+/-! ### no carriage return in what the encoder writes -/
+
+theorem noCR_append {a b : List Char} (ha : ∀ c ∈ a, c ≠ '\r') (hb : ∀ c ∈ b, c ≠ '\r') : ∀ c ∈ a ++ b, c ≠ '\r' := by
+  intro c hc
+  rcases List.mem_append.mp hc with h | h
+  · exact ha c h
+  · exact hb c h
+
+theorem noCR_oscClose : ∀ c ∈ oscClose, c ≠ '\r' := by decide
+theorem noCR_sgrReset : ∀ c ∈ sgrReset, c ≠ '\r' := by decide
+
+theorem noCR_sgrOpen {body : List Char} (h : ∀ c ∈ body, c ≠ '\r') : ∀ c ∈ sgrOpen body, c ≠ '\r' := by
+  have h1 : ∀ c ∈ [ESC, '['], c ≠ '\r' := by decide
+  have h2 : ∀ c ∈ ['m'], c ≠ '\r' := by decide
+  have := noCR_append h1 (noCR_append h h2)
+  simpa [sgrOpen] using this
+
+theorem noCR_oscOpen {id link : List Char} (hi : ∀ c ∈ id, c ≠ '\r') (hl : ∀ c ∈ link, c ≠ '\r') :
+    ∀ c ∈ oscOpen id link, c ≠ '\r' := by
+  have h1 : ∀ c ∈ [ESC, ']', '8', ';', 'i', 'd', '='], c ≠ '\r' := by decide
+  have h2 : ∀ c ∈ [';'], c ≠ '\r' := by decide
+  have h3 : ∀ c ∈ [ESC, '\\'], c ≠ '\r' := by decide
+  have := noCR_append h1 (noCR_append hi (noCR_append h2 (noCR_append hl h3)))
+  simpa [oscOpen] using this
+
 /-! ### one segment -/
 
 /-- Reading what `_render_buffer` wrote for one segment, whatever follows: the decoder goes from a blank
@@ -164,6 +189,7 @@ theorem seg_roundtrip (cfg : Cfg) (g : Seg) (hg : SegOk g) (st : Style) (hst : B
           | nil => simp [h, strTruthy] at hlk
           | cons a b => exact ⟨a :: b, rfl, by simp⟩
       have hlinkOk : linkOk link = true := by simpa [hlinkeq] using hlink
+      have hlk' : strTruthy (some link) = true := by rw [← hlinkeq]; exact hlk
       have hlinkCR : ∀ c ∈ link, c ≠ '\r' := by
         intro c hc
         simp only [linkOk, List.all_eq_true, Bool.and_eq_true, bne_iff_ne, ne_eq] at hlinkOk
@@ -182,12 +208,8 @@ theorem seg_roundtrip (cfg : Cfg) (g : Seg) (hg : SegOk g) (st : Style) (hst : B
         have hattrs : makeAnsiCodes s = .ok [] := by rw [hm, hps]; rfl
         refine ⟨oscOpen g.linkId link ++ g.text ++ oscClose, ?_, ?_, updateLink cfg.sv sa none, [],
           flushRuns st acc ++ flushRuns sa g.text, ?_, rfl, ?_, ?_⟩
-        · simp [encodeSeg, hsty, hb, renderSeg, htE, hattrs, hlk, hlinkeq]
-        · intro c hc
-          simp only [oscOpen, oscClose, List.mem_append, List.mem_cons, List.not_mem_nil, or_false] at hc
-          rcases hc with ((((rfl | rfl | rfl | rfl | rfl | rfl | rfl) | hc) | rfl | hc | rfl | rfl) | hc) | hc
-          all_goals first | decide | exact hidCR c hc | exact hlinkCR c hc | exact textOk_noCR hg.text c hc | skip
-          rcases hc with rfl | rfl | rfl | rfl | rfl | rfl | rfl <;> decide
+        · simp [encodeSeg, hsty, hb, renderSeg, htE, hattrs, hlk', hlinkeq]
+        · exact noCR_append (noCR_append (noCR_oscOpen hidCR hlinkCR) (textOk_noCR hg.text)) noCR_oscClose
         · exact blank_updateLink_none cfg.sv hsaInv hst.color hst.bgcolor hst.set0
         · rw [charsOf_append, charsOf_flushRuns st acc hacc, charsOf_flushRuns sa g.text hg.text,
             obsOpt_orNone_blank hst]
@@ -218,13 +240,9 @@ theorem seg_roundtrip (cfg : Cfg) (g : Seg) (hg : SegOk g) (st : Style) (hst : B
           cases h : joinWith ';' (ps.map (·.1)) <;> simp [h] at hne ⊢
         refine ⟨oscOpen g.linkId link ++ (sgrOpen (joinWith ';' (ps.map (·.1))) ++ g.text ++ sgrReset) ++ oscClose, ?_, ?_,
           updateLink cfg.sv Style.null none, [], flushRuns st acc ++ flushRuns st' g.text, ?_, rfl, ?_, ?_⟩
-        · simp [encodeSeg, hsty, hb, renderSeg, htE, hm, hneE, hlk, hlinkeq]
-        · intro c hc
-          simp only [oscOpen, oscClose, sgrOpen, sgrReset, List.mem_append, List.mem_cons, List.not_mem_nil, or_false] at hc
-          rcases hc with ((((rfl | rfl | rfl | rfl | rfl | rfl | rfl) | hc) | rfl | hc | rfl | rfl) | ((rfl | rfl | hc | rfl) | hc) | hc) | hc
-          all_goals first | decide | exact hidCR c hc | exact hlinkCR c hc | exact textOk_noCR hg.text c hc | exact hbodyCR c hc | skip
-          · rcases hc with rfl | rfl | rfl | rfl <;> decide
-          · rcases hc with rfl | rfl | rfl | rfl | rfl | rfl | rfl <;> decide
+        · simp [encodeSeg, hsty, hb, renderSeg, htE, hm, hneE, hlk', hlinkeq]
+        · exact noCR_append (noCR_append (noCR_oscOpen hidCR hlinkCR)
+            (noCR_append (noCR_append (noCR_sgrOpen hbodyCR) (textOk_noCR hg.text)) noCR_sgrReset)) noCR_oscClose
         · exact blank_updateLink_none cfg.sv inv_null rfl rfl rfl
         · rw [charsOf_append, charsOf_flushRuns st acc hacc, charsOf_flushRuns st' g.text hg.text,
             obsOpt_orNone_blank hst]
@@ -261,11 +279,7 @@ theorem seg_roundtrip (cfg : Cfg) (g : Seg) (hg : SegOk g) (st : Style) (hst : B
         refine ⟨sgrOpen (joinWith ';' (ps.map (·.1))) ++ g.text ++ sgrReset, ?_, ?_,
           Style.null, [], flushRuns st acc ++ flushRuns st' g.text, blank_null, rfl, ?_, ?_⟩
         · simp [encodeSeg, hsty, hb, renderSeg, htE, hm, hneE, hlkF]
-        · intro c hc
-          simp only [sgrOpen, sgrReset, List.mem_append, List.mem_cons, List.not_mem_nil, or_false] at hc
-          rcases hc with ((rfl | rfl | hc | rfl) | hc) | hc
-          all_goals first | decide | exact textOk_noCR hg.text c hc | exact hbodyCR c hc | skip
-          rcases hc with rfl | rfl | rfl | rfl <;> decide
+        · exact noCR_append (noCR_append (noCR_sgrOpen hbodyCR) (textOk_noCR hg.text)) noCR_sgrReset
         · rw [charsOf_append, charsOf_flushRuns st acc hacc, charsOf_flushRuns st' g.text hg.text,
             obsOpt_orNone_blank hst]
           have : obsOpt (orNone st') = obsOpt (some s) := by
